@@ -300,7 +300,7 @@ pub fn read_aiger(spec: &Spec, b: &[u8]) -> Reading {
     let max_code = spec.max_code();
     let mut must_reject: Option<String> = None;
     let mut pos = 0usize;
-    let mut next_line = |pos: &mut usize| -> Option<&[u8]> {
+    let next_line = |pos: &mut usize| -> Option<&[u8]> {
         if *pos > b.len() {
             return None;
         }
@@ -355,7 +355,7 @@ pub fn read_aiger(spec: &Spec, b: &[u8]) -> Reading {
         input_count: i as u64,
         ..AigOwned::default()
     };
-    let mut lit = |w: &[u8], defining: bool, must_reject: &mut Option<String>| -> Result<u64, Reading> {
+    let lit = |w: &[u8], defining: bool, must_reject: &mut Option<String>| -> Result<u64, Reading> {
         match aiger_number(w) {
             Some(Some(v)) => {
                 if v > max_lit {
@@ -449,7 +449,7 @@ pub fn read_aiger(spec: &Spec, b: &[u8]) -> Reading {
     single!(ff, aig.fairness, false);
     for _ in 0..a {
         if binary {
-            let mut read_var = |pos: &mut usize| -> Option<Option<u128>> {
+            let read_var = |pos: &mut usize| -> Option<Option<u128>> {
                 let mut v: u128 = 0;
                 let mut shift = 0u32;
                 loop {
